@@ -1,19 +1,270 @@
 /-
   Delivery independence of the streaming chunker model (C09).
+
+  `ChunkStreamHasher`: how many warm-up bytes a hasher still wants (`need`).
+  `ChunkStreamMach`: `RHState.next` is a byte-at-a-time machine (`mach`), hence compositional in
+  the number of buffered bytes (`next_none`, `next_some`).
+  Here: `SC.drain` / `SC.run` under any read script against "everything in one read".
 -/
 import Bita.Model.Chunker
 import Bita.Spec.Tiling
+import Bita.Proofs.ChunkStreamMach
+
+namespace Bita.Proofs.CS
+open Bita Bita.Spec
+
+/-- Invariant of the streaming chunker. -/
+def SInv (sc : SC) : Prop := sc.have_ ≤ sc.rest.length ∧ CInv sc.ch sc.have_
+
+theorem drain_have_zero (f : Nat) (sc : SC) (h : sc.have_ = 0) : SC.drain f sc = ([], sc) := by
+  cases f <;> simp [SC.drain, h]
+
+theorem drain_succ_none (f : Nat) (sc : SC) (ch' : Chunker) (h : sc.have_ ≠ 0)
+    (hn : sc.ch.next sc.rest sc.have_ = (ch', none)) :
+    SC.drain (f + 1) sc = ([], { sc with ch := ch' }) := by
+  rw [SC.drain, if_neg h, hn]
+
+theorem drain_succ_some (f : Nat) (sc : SC) (ch' : Chunker) (n : Nat) (h : sc.have_ ≠ 0)
+    (hn : sc.ch.next sc.rest sc.have_ = (ch', some n)) (hn0 : n ≠ 0) :
+    SC.drain (f + 1) sc =
+      ((sc.start, n) :: (SC.drain f ⟨sc.start + n, sc.rest.drop n, sc.have_ - n, ch'⟩).1,
+       (SC.drain f ⟨sc.start + n, sc.rest.drop n, sc.have_ - n, ch'⟩).2) := by
+  rw [SC.drain, if_neg h, hn]
+  simp only [if_neg hn0]
+
+theorem SInv_after_some (sc : SC) (hi : SInv sc) (ch' : Chunker) (n : Nat)
+    (hn : sc.ch.next sc.rest sc.have_ = (ch', some n)) :
+    SInv ⟨sc.start + n, sc.rest.drop n, sc.have_ - n, ch'⟩ ∧ 1 ≤ n ∧ n ≤ sc.have_ := by
+  obtain ⟨h1, h2, h3, _⟩ := next_some sc.ch sc.rest sc.have_ ch' n hi.2 hi.1 hn
+  refine ⟨⟨?_, CInv_mono _ _ _ (Nat.zero_le _) h1⟩, h2, h3⟩
+  have := hi.1
+  simp only [List.length_drop]; omega
+
+theorem drain_inv (f : Nat) (sc : SC) (hi : SInv sc) :
+    SInv (SC.drain f sc).2 ∧
+      (SC.drain f sc).2.rest.length - (SC.drain f sc).2.have_ = sc.rest.length - sc.have_ := by
+  induction f generalizing sc with
+  | zero => simp [SC.drain, hi]
+  | succ f ih =>
+    by_cases h0 : sc.have_ = 0
+    · rw [drain_have_zero _ _ h0]; exact ⟨hi, rfl⟩
+    · rcases hn : sc.ch.next sc.rest sc.have_ with ⟨ch', r⟩
+      cases r with
+      | none =>
+        rw [drain_succ_none f sc ch' h0 hn]
+        obtain ⟨h1, _⟩ := next_none sc.ch sc.rest sc.have_ ch' hi.2 hi.1 hn
+        exact ⟨⟨hi.1, h1⟩, rfl⟩
+      | some n =>
+        obtain ⟨h1, h2, h3⟩ := SInv_after_some sc hi ch' n hn
+        rw [drain_succ_some f sc ch' n h0 hn (by omega)]
+        obtain ⟨a, b⟩ := ih _ h1
+        refine ⟨a, ?_⟩
+        dsimp only at b ⊢
+        rw [b]
+        have := hi.1
+        simp only [List.length_drop]; omega
+
+theorem drain_fuel (f1 f2 : Nat) (sc : SC) (hi : SInv sc) (h1 : sc.have_ + 1 ≤ f1)
+    (h2 : sc.have_ + 1 ≤ f2) : SC.drain f1 sc = SC.drain f2 sc := by
+  induction f1 generalizing f2 sc with
+  | zero => omega
+  | succ f1 ih =>
+    obtain ⟨f2, rfl⟩ : ∃ k, f2 = k + 1 := ⟨f2 - 1, by omega⟩
+    by_cases h0 : sc.have_ = 0
+    · rw [drain_have_zero _ _ h0, drain_have_zero _ _ h0]
+    · rcases hn : sc.ch.next sc.rest sc.have_ with ⟨ch', r⟩
+      cases r with
+      | none => rw [drain_succ_none f1 sc ch' h0 hn, drain_succ_none f2 sc ch' h0 hn]
+      | some n =>
+        obtain ⟨a, b, c⟩ := SInv_after_some sc hi ch' n hn
+        rw [drain_succ_some f1 sc ch' n h0 hn (by omega), drain_succ_some f2 sc ch' n h0 hn (by omega)]
+        rw [ih f2 _ a (by dsimp only; omega) (by dsimp only; omega)]
+
+/-- The tail emitted at the end of the source. -/
+def tailOf (sc : SC) : List (Nat × Nat) := if sc.have_ = 0 then [] else [(sc.start, sc.have_)]
+
+/-- What is emitted once the whole source is in the buffer. -/
+def fin (sc : SC) : List (Nat × Nat) :=
+  (SC.drain (sc.have_ + 1) sc).1 ++ tailOf (SC.drain (sc.have_ + 1) sc).2
+
+/-- The same chunker with the whole source in the buffer. -/
+def full (sc : SC) : SC := { sc with have_ := sc.rest.length }
+
+theorem SInv_full (sc : SC) (hi : SInv sc) : SInv (full sc) :=
+  ⟨Nat.le_refl _, CInv_mono _ _ _ hi.1 hi.2⟩
+
+theorem fin_full_none (sc : SC) (hi : SInv sc) (ch' : Chunker) (h0 : sc.have_ ≠ 0)
+    (hn : sc.ch.next sc.rest sc.have_ = (ch', none)) :
+    fin (full { sc with ch := ch' }) = fin (full sc) := by
+  obtain ⟨_, h2⟩ := next_none sc.ch sc.rest sc.have_ ch' hi.2 hi.1 hn
+  have e := h2 sc.rest.length hi.1 (Nat.le_refl _)
+  have hl : sc.rest.length ≠ 0 := by have := hi.1; omega
+  unfold fin full
+  dsimp only
+  rcases hr : sc.ch.next sc.rest sc.rest.length with ⟨c2, r⟩
+  rw [hr] at e
+  cases r with
+  | none =>
+    rw [drain_succ_none _ _ c2 hl e, drain_succ_none _ _ c2 hl hr]
+  | some n =>
+    by_cases hn0 : n = 0
+    · subst hn0
+      simp only [SC.drain, if_neg hl, e, hr]
+    · rw [drain_succ_some _ _ c2 n hl e hn0, drain_succ_some _ _ c2 n hl hr hn0]
+
+theorem fin_full_some (sc : SC) (hi : SInv sc) (ch' : Chunker) (n : Nat)
+    (hn : sc.ch.next sc.rest sc.have_ = (ch', some n)) :
+    fin (full sc) = (sc.start, n) :: fin (full ⟨sc.start + n, sc.rest.drop n, sc.have_ - n, ch'⟩) := by
+  obtain ⟨h1, h2, h3, h4⟩ := next_some sc.ch sc.rest sc.have_ ch' n hi.2 hi.1 hn
+  have e := h4 sc.rest.length hi.1 (Nat.le_refl _)
+  have hl : sc.rest.length ≠ 0 := by have := hi.1; omega
+  have hl' := hi.1
+  unfold fin full
+  dsimp only
+  rw [drain_succ_some _ _ ch' n hl e (by omega)]
+  dsimp only
+  have e2 : (sc.rest.drop n).length = sc.rest.length - n := by simp
+  rw [e2]
+  rw [drain_fuel sc.rest.length (sc.rest.length - n + 1) _
+    ⟨by dsimp only; omega, CInv_mono _ _ _ (Nat.zero_le _) h1⟩ (by dsimp only; omega) (by dsimp only; omega)]
+  rfl
+
+/-- Draining first and completing the buffer afterwards changes nothing. -/
+theorem fin_full_drain (f : Nat) (sc : SC) (hi : SInv sc) (hf : sc.have_ + 1 ≤ f) :
+    fin (full sc) = (SC.drain f sc).1 ++ fin (full (SC.drain f sc).2) := by
+  induction f generalizing sc with
+  | zero => omega
+  | succ f ih =>
+    by_cases h0 : sc.have_ = 0
+    · rw [drain_have_zero _ _ h0]; rfl
+    · rcases hn : sc.ch.next sc.rest sc.have_ with ⟨ch', r⟩
+      cases r with
+      | none =>
+        rw [drain_succ_none f sc ch' h0 hn]
+        dsimp only
+        rw [fin_full_none sc hi ch' h0 hn]; rfl
+      | some n =>
+        obtain ⟨a, b, c⟩ := SInv_after_some sc hi ch' n hn
+        rw [drain_succ_some f sc ch' n h0 hn (by omega), fin_full_some sc hi ch' n hn]
+        dsimp only
+        rw [ih _ a (by dsimp only; omega)]
+        rfl
+
+theorem run_nil (sc : SC) : SC.run sc [] = (SC.drain (sc.have_ + 1) sc).1 := by
+  rw [SC.run]
+
+theorem run_pending (sc : SC) (s : List Rd) :
+    SC.run sc (.pending :: s) =
+      (SC.drain (sc.have_ + 1) sc).1 ++ SC.run (SC.drain (sc.have_ + 1) sc).2 s := by
+  rw [SC.run]
+
+theorem run_bytes (sc : SC) (n : Nat) (s : List Rd) :
+    SC.run sc (.bytes n :: s) =
+      (SC.drain (sc.have_ + 1) sc).1 ++
+        (if (SC.drain (sc.have_ + 1) sc).2.have_ = (SC.drain (sc.have_ + 1) sc).2.rest.length then
+          tailOf (SC.drain (sc.have_ + 1) sc).2
+        else
+          SC.run { (SC.drain (sc.have_ + 1) sc).2 with
+            have_ := (SC.drain (sc.have_ + 1) sc).2.have_ +
+              min (max n 1) ((SC.drain (sc.have_ + 1) sc).2.rest.length - (SC.drain (sc.have_ + 1) sc).2.have_) } s) := by
+  rw [SC.run]
+  dsimp only [tailOf]
+  split <;> simp_all
+
+
+theorem full_eq_self (sc : SC) (h : sc.have_ = sc.rest.length) : full sc = sc := by
+  obtain ⟨a, b, c, d⟩ := sc
+  dsimp only at h
+  simp [full, h]
+
+theorem SInv_more (sc : SC) (hi : SInv sc) (m : Nat) :
+    SInv { sc with have_ := sc.have_ + min m (sc.rest.length - sc.have_) } :=
+  ⟨by have := hi.1; dsimp only; omega, CInv_mono _ _ _ (by dsimp only; omega) hi.2⟩
+
+/-- A complete script yields what a single full read yields. -/
+theorem run_complete (script : List Rd) (sc : SC) (hi : SInv sc)
+    (hc : Complete script (sc.rest.length - sc.have_) = true) : SC.run sc script = fin (full sc) := by
+  induction script generalizing sc with
+  | nil => simp [Complete] at hc
+  | cons r s ih =>
+    obtain ⟨a, b⟩ := drain_inv (sc.have_ + 1) sc hi
+    cases r with
+    | pending =>
+      simp only [Complete] at hc
+      rw [run_pending, ih _ a (by rw [b]; exact hc), ← fin_full_drain _ sc hi (Nat.le_refl _)]
+    | bytes n =>
+      rw [run_bytes]
+      split
+      · next he =>
+        have : sc.have_ = sc.rest.length := by have := hi.1; omega
+        rw [full_eq_self sc this]; rfl
+      · next he =>
+        have hr : sc.rest.length - sc.have_ ≠ 0 := by have := a.1; omega
+        simp only [Complete, if_neg hr] at hc
+        rw [ih _ (SInv_more _ a _)]
+        · exact (fin_full_drain _ sc hi (Nat.le_refl _)).symm
+        · dsimp only
+          have e : (SC.drain (sc.have_ + 1) sc).2.rest.length -
+              ((SC.drain (sc.have_ + 1) sc).2.have_ + min (max n 1)
+                ((SC.drain (sc.have_ + 1) sc).2.rest.length - (SC.drain (sc.have_ + 1) sc).2.have_)) =
+              sc.rest.length - sc.have_ - min (max n 1) (sc.rest.length - sc.have_) := by
+            rw [b]; omega
+          rw [e]; exact hc
+
+/-- Any script yields a prefix of that. -/
+theorem run_prefix (script : List Rd) (sc : SC) (hi : SInv sc) :
+    ∃ r, fin (full sc) = SC.run sc script ++ r := by
+  induction script generalizing sc with
+  | nil =>
+    rw [run_nil]
+    exact ⟨_, fin_full_drain _ sc hi (Nat.le_refl _)⟩
+  | cons r s ih =>
+    obtain ⟨a, b⟩ := drain_inv (sc.have_ + 1) sc hi
+    cases r with
+    | pending =>
+      obtain ⟨r, hr⟩ := ih _ a
+      refine ⟨r, ?_⟩
+      rw [run_pending, fin_full_drain _ sc hi (Nat.le_refl _), hr, List.append_assoc]
+    | bytes n =>
+      rw [run_bytes]
+      split
+      · next he =>
+        have : sc.have_ = sc.rest.length := by have := hi.1; omega
+        rw [full_eq_self sc this]
+        exact ⟨[], by simp [fin]⟩
+      · next he =>
+        obtain ⟨r, hr⟩ := ih _ (SInv_more _ a (max n 1))
+        refine ⟨r, ?_⟩
+        rw [fin_full_drain _ sc hi (Nat.le_refl _), List.append_assoc, ← hr]
+        rfl
+
+theorem complete_ref (n : Nat) : Complete [.bytes n, .bytes 1] n = true := by
+  simp only [Complete]
+  split
+  · rfl
+  · have : n - min (max n 1) n = 0 := by omega
+    simp [this]
+
+theorem SInv_init (cfg : Config) (hv : cfg.Valid) (data : Bytes) :
+    SInv ⟨0, data, 0, Chunker.ofConfig cfg⟩ :=
+  ⟨Nat.zero_le _, CInv_ofConfig cfg hv⟩
+
+end Bita.Proofs.CS
 
 namespace Bita.Proofs
-open Bita Bita.Spec
+open Bita Bita.Spec Bita.Proofs.CS
 
 theorem stream_independent_of_delivery (cfg : Config) (hv : cfg.Valid) (data : Bytes)
     (script : List Rd) (hc : Complete script data.length = true) :
     chunkStream cfg data script = chunkAll cfg data := by
-  sorry
+  unfold chunkAll chunkStream
+  rw [run_complete script _ (SInv_init cfg hv data) hc,
+    run_complete _ _ (SInv_init cfg hv data) (complete_ref data.length)]
 
 theorem stream_prefix (cfg : Config) (hv : cfg.Valid) (data : Bytes) (script : List Rd) :
     ∃ rest, chunkAll cfg data = chunkStream cfg data script ++ rest := by
-  sorry
+  unfold chunkAll chunkStream
+  rw [run_complete _ _ (SInv_init cfg hv data) (complete_ref data.length)]
+  exact run_prefix script _ (SInv_init cfg hv data)
 
 end Bita.Proofs
